@@ -39,10 +39,12 @@ NMasks == IF Tier = "quick" /\ ~Gen THEN 3 ELSE 8
 PosGeneric ==
   << << <<0, 0, 0>>, <<4, 4, 6>>, <<1, 3, 2>>, <<2, 0, 5>> >>,
      << <<1, 1, 1>>, <<1, 1, 4>>, <<3, 0, 2>>, <<0, 4, 0>> >>,
-     << <<0, 2, 3>>, <<4, 2, 3>>, <<2, 2, 0>>, <<3, 4, 6>>, <<1, 0, 1>> >>,
      << <<2, 1, 0>>, <<0 - 1, 3, 5>>, <<6, 2, 2>>, <<3, 3, 3>> >>,
-     << <<0, 0, 1>>, <<3, 1, 4>>, <<1, 4, 2>>, <<4, 3, 6>>, <<2, 2, 5>> >>,
-     << <<4, 0, 0>>, <<0, 0, 0>>, <<0, 4, 3>>, <<2, 3, 6>> >> >>
+     << <<4, 0, 0>>, <<0, 0, 0>>, <<0, 4, 3>>, <<2, 3, 6>> >>,
+     << <<0, 2, 3>>, <<4, 2, 3>>, <<2, 2, 0>>, <<3, 4, 6>>, <<1, 0, 1>> >>,
+     << <<0, 0, 1>>, <<3, 1, 4>>, <<1, 4, 2>>, <<4, 3, 6>>, <<2, 2, 5>> >> >>
+\* later frames of a trajectory take the next list with the same number of particles (lists 1..4: N = 4, 5..6: N = 5)
+PosGenericIdx(pi, f) == IF pi <= 4 THEN ((pi + f - 2) % 4) + 1 ELSE ((pi + f - 2) % 2) + 5
 \* exact scope: particle 1 at the origin, three more sites of {0,1,2}^3
 PtsExact == IF Tier = "quick"
             THEN {<<1, 0, 0>>, <<0, 1, 2>>, <<2, 2, 1>>, <<1, 1, 0>>, <<0, 0, 2>>, <<2, 1, 2>>}
@@ -79,38 +81,26 @@ NmaxOf(ni) == IF ni = 1 THEN 30 ELSE 2
 \* frame f of the case described by a: positions and topology rotate through the catalogues
 PosList(f) ==
   IF Scope = "exact" THEN (IF f = 1 THEN PosOfSet(a.ps) ELSE LET p == PosOfSet(a.ps) IN << p[1], p[f + 1], p[(f % 3) + 2], p[((f + 1) % 3) + 2] >>)
-  ELSE PosGeneric[((a.pi + f - 2) % Len(PosGeneric)) + 1]
+  ELSE PosGeneric[PosGenericIdx(a.pi, f)]
 FrameOf(f) ==
   LET pos == PosList(f)
       N   == Len(pos)
-      N1  == Len(PosList(1))
       t   == ((a.ti + f - 2) % NTopo) + 1
       nl  == [i \in 1..N |-> Topo(t, N, i)]
   IN  [pos |-> pos, nl |-> nl,
        w   |-> IF a.wi = 1 THEN << >> ELSE [i \in 1..N |-> Wts(a.wi, f, N, i, Len(nl[i]))]]
-\* all frames of a trajectory have the same number of particles: frames whose catalogue entry has a
-\* different N are replaced by the first frame's list shifted by one lattice unit in x
-SameN(f) == Len(PosList(f)) = Len(PosList(1))
-FrameFixed(f) ==
-  IF SameN(f) THEN FrameOf(f)
-  ELSE LET g0 == FrameOf(1)
-           t  == ((a.ti + f - 2) % NTopo) + 1
-           N  == Len(g0.pos)
-           nl == [i \in 1..N |-> Topo(t, N, i)]
-       IN  [pos |-> [i \in 1..N |-> <<g0.pos[i][1] + (IF i % 2 = 0 THEN f - 1 ELSE 0), g0.pos[i][2], g0.pos[i][3]>>],
-            nl  |-> nl,
-            w   |-> IF a.wi = 1 THEN << >> ELSE [i \in 1..N |-> Wts(a.wi, f, N, i, Len(nl[i]))]]
-Frames == [f \in 1..a.nf |-> FrameFixed(f)]
+Frames == [f \in 1..a.nf |-> FrameOf(f)]
 HOf    == CellsOf[a.ci]
 PppOf  == Masks[a.mi]
 NmaxC  == NmaxOf(a.ni)
 
 \* ------------------------------------------------------------------ degrees and thresholds
 LsGen   == IF Mode = "ref" THEN (IF Tier = "quick" THEN {4, 6} ELSE {2, 3, 4, 5, 6, 8, 10, 12})
-           ELSE IF Mode = "xtal" THEN (IF Tier = "quick" THEN {6} ELSE {4, 6})
+           ELSE IF Mode = "xtal" THEN (IF Tier = "quick" THEN {6} ELSE {4, 6, 8})
            ELSE IF Scope = "exact" THEN {2, 4, 6}
            ELSE 2..12
 LsCheck == IF Mode = "cfg" THEN (IF Scope = "exact" THEN (IF Tier = "quick" THEN {2, 4} ELSE {2, 4, 6}) ELSE {2})
+           ELSE IF Mode = "xtal" /\ Tier = "quick" THEN {6}
            ELSE {4, 6}
 Ls      == IF Gen THEN LsGen ELSE LsCheck
 Thresholds == << <<7, 10>>, <<1, 2>>, <<0, 1>>, <<0 - 1, 2>> >>      \* c = 0.7 (default), 0.5, 0, -0.5
@@ -126,15 +116,18 @@ CfgSpace ==
         nf : (IF Gen THEN 1..2 ELSE {1}), ni : 1..2, tsi : {1}]
   ELSE [pi : 1..Len(PosGeneric), ci : 1..Len(CellsGeneric), mi : 1..NMasks, ti : 1..NTopo, wi : 1..3,
         nf : (IF Gen THEN 1..3 ELSE {1, 3}), ni : 1..2, tsi : (IF Gen THEN 1..2 ELSE {1})]
-HashA ==
+\* a unique index of the state within its scope (mixed radix), used for sharding and seeded sampling
+PsId(S) == LET q == SortedSeq(S) IN (q[1] * 27 + q[2]) * 27 + q[3]
+Uid ==
   IF Mode # "cfg" THEN a.k
-  ELSE (IF Scope = "exact" THEN SumSeq(SortedSeq(a.ps)) ELSE 5 * a.pi)
-       + 31 * a.ci + 17 * a.mi + 7 * a.ti + 3 * a.wi + 11 * a.nf + 13 * a.ni + 29 * a.tsi
+  ELSE ((((((IF Scope = "exact" THEN PsId(a.ps) ELSE a.pi) * 3 + a.ci) * 8 + a.mi) * 4 + a.ti) * 3 + a.wi) * 3 + a.nf) * 4
+       + 2 * a.ni + a.tsi
+HashA == ((Uid % 46337) * 31337 + l * 7919) % 65537
 \* sentinels are always emitted: the first cell/mask/topology with every weight kind
 SentinelPs == CHOOSE S \in PosExactSets : \A T \in PosExactSets : SumSeq(SortedSeq(S)) <= SumSeq(SortedSeq(T))
-Sentinel == Mode # "cfg" \/ (a.ci = 1 /\ a.mi = 1 /\ a.ti = 1 /\ a.nf = 1 /\ a.ni = 1 /\ a.tsi = 1
+Sentinel == Mode # "cfg" \/ (l \in {2, 6, 11} /\ a.ci = 1 /\ a.mi = 1 /\ a.ti = 1 /\ a.nf = 1 /\ a.ni = 1 /\ a.tsi = 1
                               /\ (IF Scope = "exact" THEN a.ps = SentinelPs ELSE a.pi = 1))
-Selected == ~Gen \/ Stride = 1 \/ Sentinel \/ (HashA * 7919 + l * 104729 + Seed * 611953) % Stride = 0
+Selected == ~Gen \/ Stride = 1 \/ Sentinel \/ ((HashA + Seed * 10007) % 65537) % Stride = 0
 
 Init ==
   /\ l \in Ls
@@ -143,7 +136,7 @@ Init ==
             ELSE CfgSpace)
   /\ Mode = "cfg" => (a.ni = 2 => a.ti \in {1, 4})          \* truncation only matters for long lists
   /\ Selected
-  /\ (HashA + l) % NSHARDS = SHARD
+  /\ HashA % NSHARDS = SHARD
   /\ (Mode = "cfg" /\ Scope = "exact" /\ a.wi = 3) => \A f \in 1..a.nf : ExactRowSumsSmooth(Frames[f], NmaxC)
 Next == UNCHANGED vars
 Spec == Init /\ [][Next]_vars
@@ -161,10 +154,16 @@ XPos  == LET ks == SortedSeq({XKey(p) : p \in XSites})
          IN  [i \in 1..Len(ks) |-> <<ks[i] \div (XL * XL), (ks[i] \div XL) % XL, ks[i] % XL>>]
 XH    == Tri3(XL, XL, XL, 0, 0, 0)
 XVecs == {[c \in 1..3 |-> v[c][1]] : v \in Range(RefEnv(XName).nb)}       \* integer neighbour vectors
-XNl   == LET P == XPos IN
-         [i \in 1..Len(P) |-> SelectSeq([j \in 1..Len(P) |-> j],
-              LAMBDA j : j # i /\ MinImage1(XH, VSub(P[j], P[i]), <<1, 1, 1>>) \in XVecs)]
-XFrame == [pos |-> XPos, nl |-> XNl, w |-> << >>]
+\* the crystal as one frame, evaluated once per state (TLCEval): neighbours of i = sites whose minimum image is a shell vector
+XFrameV ==
+  LET P  == TLCEval(XPos)
+      A  == TLCEval(Adj(XH))
+      d  == Det(XH)
+      V  == TLCEval(XVecs)
+      nl == TLCEval([i \in 1..Len(P) |->
+              TLCEval(SelectSeq([j \in 1..Len(P) |-> j],
+                                LAMBDA j : j # i /\ ImageOfA(XH, A, d, VSub(P[j], P[i]), <<1, 1, 1>>) \in V))])
+  IN  [pos |-> P, nl |-> nl, w |-> << >>]
 
 \* ------------------------------------------------------------------ invariants
 \* reference environments: tabulated q4, q6 bracketed, cosines rational, 0 <= q_l^2 <= 1
@@ -176,19 +175,22 @@ InvRefEqualLengths == Mode = "ref" =>
   RefNames[a.k] # "bcc" => RefEqualLengths(env, 1..Len(env.nb))
 \* periodic crystal: every site has the full shell, and its q_l^2 (through the minimum image) is the reference value
 InvXtal == Mode = "xtal" =>
-  /\ \A i \in 1..Len(XPos) : Len(XNl[i]) = Len(RefEnv(XName).nb)
-  /\ AExact(XH, <<1, 1, 1>>, XFrame, l, 1, 1, 30) = RefQl2(RefEnv(XName), l)
-  /\ Brackets(AExact(XH, <<1, 1, 1>>, XFrame, l, 1, 1, 30), IF l = 4 THEN RefTable(XName).q4 ELSE RefTable(XName).q6)
+  LET fr == XFrameV
+      q2 == AExact(XH, <<1, 1, 1>>, fr, l, 1, 1, 30)
+  IN  /\ \A i \in 1..Len(fr.pos) : Len(fr.nl[i]) = Len(RefEnv(XName).nb)
+      /\ ~FrameHasTie(XH, <<1, 1, 1>>, fr, 30)
+      /\ q2 = RefQl2(RefEnv(XName), l)
+      /\ l \in {4, 6} => Brackets(q2, IF l = 4 THEN RefTable(XName).q4 ELSE RefTable(XName).q6)
 \* small configurations
 CfgOK(fr) == ~FrameHasTie(HOf, PppOf, fr, NmaxC) /\ ~FrameHasZeroBond(HOf, PppOf, fr, NmaxC)
 \* exact rational evaluation stays inside 32 bits when every bond has components in {-1, 0, 1} (norms 1, 2, 3)
 SmallBonds(fr) == LET B == BondsOf(HOf, PppOf, fr, NmaxC) IN
                   \A i \in 1..Len(fr.pos) : \A k \in 1..Len(B[i]) : Norm2(B[i][k]) <= 3
 ExactHere == Mode = "cfg" /\ Scope = "exact" /\ l % 2 = 0
-InvNoTies     == Mode = "cfg" => \A f \in 1..a.nf : ~FrameHasTie(HOf, PppOf, Frames[f], NmaxC) /\ BondIsCellMinImage(HOf, PppOf, Frames[f], NmaxC)
+InvNoTies     == (Mode = "cfg" /\ a.wi = 1) => \A f \in 1..a.nf : ~FrameHasTie(HOf, PppOf, Frames[f], NmaxC) /\ BondIsCellMinImage(HOf, PppOf, Frames[f], NmaxC)
 InvWeights    == Mode = "cfg" => \A f \in 1..a.nf :
                    WeightsNormalised(Frames[f], NmaxC) /\ EqualWeightsAreUnweighted(Frames[f], NmaxC)
-InvEqualWeightsTerms == (Mode = "cfg" /\ a.wi = 2) =>      \* the emitted definitions are literally those of the unweighted case
+InvEqualWeightsTerms == (Mode = "cfg" /\ a.wi = 2 /\ (Scope = "generic" \/ a.mi = 1)) =>      \* the emitted definitions are literally those of the unweighted case
   \A f \in 1..a.nf : ~FrameHasZeroBond(HOf, PppOf, Frames[f], NmaxC) =>
     FrameDefs(HOf, PppOf, Frames[f], f, l, NmaxC, FALSE)
       = FrameDefs(HOf, PppOf, [Frames[f] EXCEPT !.w = << >>], f, l, NmaxC, FALSE)
@@ -257,11 +259,12 @@ RefCase ==
     compose |-> Compose(l) ]
 
 XtalCase ==
+  LET fr == XFrameV IN
   [ kind |-> "xtal", name |-> XName, l |-> l, H |-> XH, ppp |-> <<1, 1, 1>>, nmax |-> 30, ts |-> <<0>>,
-    frames |-> <<XFrame>>, bad |-> FALSE,
+    frames |-> <<fr>>, bad |-> FALSE,
     macros |-> Macros, withw |-> WithW,
-    defs |-> FrameDefs(XH, <<1, 1, 1>>, XFrame, 1, l, 30, WithW),
-    exp |-> <<FrameExp(XH, <<1, 1, 1>>, XFrame, 1, l, 30, WithW, Thresholds)>>,
+    defs |-> FrameDefs(XH, <<1, 1, 1>>, fr, 1, l, 30, WithW),
+    exp |-> <<FrameExp(XH, <<1, 1, 1>>, fr, 1, l, 30, WithW, Thresholds)>>,
     ql2ref |-> QR(RefQl2(RefEnv(XName), l)),
     compose |-> Compose(l) ]
 
